@@ -18,6 +18,10 @@ def lengths(max_len, block=16):
     return st.one_of(st.sampled_from(special), st.integers(0, min(max_len, 64)), st.integers(0, max_len))
 
 
+WIRE = st.sampled_from([None, None, None, None, {"tcpopt": 12}, {"tcpopt": 12, "pad": True}, {"vlan": 100, "tcpopt": 12}, {"pad": True}, {"tcpopt": 4},
+                        {"ip4opt": 4, "ip6ext": 1}, {"ip4opt": 8, "ip6ext": 2, "tcpopt": 12, "pad": True}, {"vlan": 7, "ip6ext": 1}])
+
+
 @st.composite
 def endpoints(draw, idx=None, sports=(443,), v6=None):
     i = draw(st.integers(0, 200)) if idx is None else idx
@@ -29,6 +33,10 @@ def endpoints(draw, idx=None, sports=(443,), v6=None):
     if cp in (443, 44330) or cp in sports:
         cp = 50000 + (cp % 1000)
     ep["cport"] = cp
+    # what the frames look like on the wire besides the plain Ethernet / IP / TCP-UDP headers
+    w = draw(WIRE)
+    if w:
+        ep["wire"] = w
     if six:
         ep["cip"] = "2001:db8:%x::%x" % (draw(st.integers(0, 0xFFFF)), i + 1)
         ep["sip"] = "2001:db8:%x:1::%x" % (draw(st.integers(0, 0xFFFF)), i + 1)
